@@ -25,6 +25,7 @@ Fixpoint l2_expr (e : expr) {struct e} : bool :=
   match e with
   | EConst _ | EVar _ => true
   | EList items => forallb l2_expr items
+  | EMap pairs => forallb (fun p => l2_expr (fst p) && l2_expr (snd p)) pairs
   | ENeg a | ENot a | EAttr a _ => l2_expr a
   | EBin _ a b | EAnd a b | EOr a b | EItem a b => l2_expr a && l2_expr b
   | ECmp a rest => l2_expr a && negb (match rest with [] => true | _ => false end) && forallb (fun p => l2_expr (snd p)) rest
@@ -132,6 +133,8 @@ Definition mok (C : list instr) (mc : macro) : Prop :=
 Fixpoint vok (C : list instr) (v : value) : Prop :=
   match v with
   | VList l => (fix all (l : list value) : Prop := match l with [] => True | x :: r => vok C x /\ all r end) l
+  | VMap m => (fix all (m : list (value * value)) : Prop :=
+                 match m with [] => True | (k, x) :: r => (vok C k /\ vok C x) /\ all r end) m
   | VMacro mc _ => mok C mc
   | VFunc g => g = N_range
   | _ => True
@@ -148,6 +151,7 @@ Definition cfg_ok (C : list instr) (c : cfg) : Prop := kvok C (c_root c).
 Fixpoint data_value (v : value) : bool :=
   match v with
   | VList l => forallb data_value l
+  | VMap m => forallb (fun '(k, x) => data_value k && data_value x) m
   | VMacro _ _ | VFunc _ | VLoop _ _ => false
   | _ => true
   end.
